@@ -451,7 +451,7 @@ func init() {
 		"strings.Index":           {pure: true},
 		"strings.TrimPrefix":      {pure: true},
 		"strings.ToLower":         {pure: true},
-		"strconv.Atoi":            {pure: true},
+		"strconv.Atoi":            {pure: true, apply: (*fnTrans).mAtoi},
 		"strconv.Itoa":            {pure: true},
 		"strconv.IsPrint":         {pure: true, apply: (*fnTrans).mIsPrint},
 		"bytes.HasPrefix":         {pure: true, apply: (*fnTrans).mHasPrefix},
@@ -1377,6 +1377,22 @@ func (t *fnTrans) mIsPrint(in ssa.Instruction, cc *ssa.CallCommon, res ssa.Value
 	return true
 }
 
+
+// strconv.Atoi(s): trusted library contract over two uninterpreted spec functions --
+// atoi_ok(s) "s is an optionally signed decimal integer in int range" and atoi_val(s) its value.
+func (t *fnTrans) mAtoi(in ssa.Instruction, cc *ssa.CallCommon, res ssa.Value) bool {
+	x := t.val(cc.Args[0])
+	r := t.freshResults(res, nameOf(res, "atoi"))
+	if len(r) != 2 {
+		return true
+	}
+	t.assume(eq("(= (itag "+r[1]+") 0)", "(atoi_ok "+x+")"))
+	t.assume(implies("(atoi_ok "+x+")", eq(r[0], "(atoi_val "+x+")")))
+	t.assume(implies("(not (atoi_ok "+x+"))", eq(r[0], "0")))
+	t.assume("(and (<= (- 9223372036854775808) (atoi_val " + x + ")) (<= (atoi_val " + x + ") 9223372036854775807))")
+	t.libErrorFact(r[1])
+	return true
+}
 
 // errors.New / fmt.Errorf return a non-nil error that is not one of mangos' constants.
 func (t *fnTrans) mNewError(in ssa.Instruction, cc *ssa.CallCommon, res ssa.Value) bool {
